@@ -570,3 +570,22 @@ func isQueueElem(v ssa.Value, wq core.Field) bool {
 	f, ok := core.LoadedField(ia.X)
 	return ok && f == wq
 }
+
+// label names a field of the service by its role where it has one, so that
+// obligation keys (and the known findings that refer to them) survive a
+// rename of the unexported field.
+func (a *svcAnchors) label(f core.Field) string {
+	switch f {
+	case a.NC:
+		return a.S + ".<conn>"
+	case a.InCh:
+		return a.S + ".<in-channel>"
+	case a.RWork:
+		return a.S + ".<registry>"
+	case a.WorkQueue:
+		return a.S + ".<work-queue>"
+	case a.WorkBuf:
+		return a.S + ".<work-buffer>"
+	}
+	return f.String()
+}
